@@ -540,3 +540,144 @@ Qed.
 Check C07_lib_statements_not_minus : forall O mw s,
   Formatter.starts_with_minus (Formatter.render (fst (fst (Formatter.lib_stmt O mw false s)))) = false.
 Print Assumptions C07_lib_statements_not_minus.
+
+(* ================================================================ the character level of the layouts: TOKENS
+   (proofs/FmtToks.v, FmtToksDoc.v, FmtToksAll.v — extension TOK, notes/ext-tok.md)
+   `toks` (FmtTokens.v) is a three-state character automaton (code / string literal / comment).
+   (1) It composes: reading a ++ b is reading a, then b from the state a stops in. *)
+Require Import Blots.proofs.FmtToks Blots.proofs.FmtToksDoc Blots.proofs.FmtToksAll.
+Theorem C07_toks_compose : forall a b m cur,
+  toks_from m cur (a ++ b)%string =
+  (fst (trun m cur a) ++ toks_from (fst (snd (trun m cur a))) (snd (snd (trun m cur a))) b)%list.
+Proof. exact toks_from_app. Qed.
+Check C07_toks_compose : forall a b m cur,
+  toks_from m cur (a ++ b)%string =
+  (fst (trun m cur a) ++ toks_from (fst (snd (trun m cur a))) (snd (snd (trun m cur a))) b)%list.
+Print Assumptions C07_toks_compose.
+
+(* The decidable boundary condition `boundary a b`: a stops in code state (every string literal closed,
+   not inside a comment) and either a stops with no open chunk (it ends with a blank, a line break, one of
+   ( ) [ ] { } , : , a closing quote or a comment line) or b starts with a blank, a line break, one of
+   ( ) [ ] { } , : or a quote.  (Two other character classes always merge into one chunk: `toks` does not
+   split operators from operands.)  Across a boundary the chunks are the chunks of the two parts. *)
+Theorem C07_toks_boundary : forall a b, boundary a b = true -> toks (a ++ b)%string = (toks a ++ toks b)%list.
+Proof. exact toks_app_boundary. Qed.
+Check C07_toks_boundary : forall a b, boundary a b = true -> toks (a ++ b)%string = (toks a ++ toks b)%list.
+Print Assumptions C07_toks_boundary.
+
+(* Separators: blanks, line breaks, indentation, end-of-line comments and comment lines (anything that,
+   read with any open chunk, closes it, yields nothing and stops at a chunk boundary) vanish. *)
+Theorem C07_toks_separator : forall a sep b, ends_code a = true -> is_sep sep ->
+  toks (a ++ sep ++ b)%string = (toks a ++ toks b)%list.
+Proof. exact toks_app_sep. Qed.
+Check C07_toks_separator : forall a sep b, ends_code a = true -> is_sep sep ->
+  toks (a ++ sep ++ b)%string = (toks a ++ toks b)%list.
+Print Assumptions C07_toks_separator.
+Theorem C07_toks_layout_separators : forall c n m, no_nl c = true ->
+  is_sep (Formatter.nl ++ Formatter.make_indent n) /\
+  is_sep ("  " ++ ("//" ++ c ++ Formatter.nl) ++ Formatter.make_indent n) /\
+  is_sep ((Formatter.nl ++ Formatter.make_indent n) ++ ("//" ++ c ++ Formatter.nl) ++ Formatter.make_indent m).
+Proof.
+  intros c n m H. split; [apply is_sep_nl_indent|]. split; [apply is_sep_eol_comment, H|apply is_sep_comment_line, H].
+Qed.
+Check C07_toks_layout_separators : forall c n m, no_nl c = true ->
+  is_sep (Formatter.nl ++ Formatter.make_indent n) /\
+  is_sep ("  " ++ ("//" ++ c ++ Formatter.nl) ++ Formatter.make_indent n) /\
+  is_sep ((Formatter.nl ++ Formatter.make_indent n) ++ ("//" ++ c ++ Formatter.nl) ++ Formatter.make_indent m).
+Print Assumptions C07_toks_layout_separators.
+
+(* The two states that swallow separators.  A string literal is ONE chunk whatever it contains (blanks,
+   line breaks, brackets, `//`), and the text after it is read from a chunk boundary; a comment runs to
+   the end of its line whatever it contains (quotes, brackets). *)
+Theorem C07_toks_string_literal : forall q body r cur,
+  Formatter.is_quote q = true -> nochar q body = true ->
+  toks_from LCode cur (String q (body ++ String q r)) =
+  (flush cur ++ String q (body ++ String q EmptyString) :: toks r)%list.
+Proof. exact toks_string_lit. Qed.
+Check C07_toks_string_literal : forall q body r cur,
+  Formatter.is_quote q = true -> nochar q body = true ->
+  toks_from LCode cur (String q (body ++ String q r)) =
+  (flush cur ++ String q (body ++ String q EmptyString) :: toks r)%list.
+Print Assumptions C07_toks_string_literal.
+Theorem C07_toks_comment : forall c r, no_nl c = true ->
+  trun LCom [] (c ++ String Formatter.NLc r) = trun LCode [] r.
+Proof. exact trun_comment. Qed.
+Check C07_toks_comment : forall c r, no_nl c = true ->
+  trun LCom [] (c ++ String Formatter.NLc r) = trun LCode [] r.
+Print Assumptions C07_toks_comment.
+
+(* (2) Documents.  `dok true d` is a decidable check on a document of Formatter.v: every piece, read from a
+   chunk boundary, stops in code state, and every seam between pieces is a `boundary`.  Then the chunks of
+   the rendered text are the chunks of the pieces, in order. *)
+Theorem C07_doc_toks : forall d, dok true d = true ->
+  toks (Formatter.render d) = flat_map piece_toks d /\ ends_code (Formatter.render d) = true.
+Proof. exact doc_toks. Qed.
+Check C07_doc_toks : forall d, dok true d = true ->
+  toks (Formatter.render d) = flat_map piece_toks d /\ ends_code (Formatter.render d) = true.
+Print Assumptions C07_doc_toks.
+
+(* EVERY layout of formatter.rs — format_expr_impl with the single-line test, format_multiline, the list /
+   record / call layouts, format_binary_op_multiline with its via/into/where arm (the re-assembled right
+   operand is the document itself: C07_relined_identity; no Relined piece, so no cr_free hypothesis),
+   format_conditional_multiline with its else-if chain, format_lambda, format_do_block_multiline with
+   protect_leading_minus, assignment, output — for ANY oracle record, width and indentation builds a
+   document with such seams only, for every tree with `tok_ok O e` (decidable): no comment annotations
+   (true of wf trees), and the texts taken from elsewhere — expr_to_source's and format_single_line's text
+   of every sub-expression, assigned names, parameter lists, record keys — stop in code state.
+   So no chunk of a laid-out text straddles two pieces and no piece is swallowed by a string or comment.
+   PARTIAL with respect to C07_layout_preserves_tokens_full: see C07_layout_view_full below. *)
+Theorem C07_layout_tokens_are_pieces_partial : forall O w e i, tok_ok O e = true ->
+  toks (Formatter.render (Formatter.fmtd O w e i)) = flat_map piece_toks (Formatter.fmtd O w e i) /\
+  ends_code (Formatter.render (Formatter.fmtd O w e i)) = true.
+Proof. exact layout_toks. Qed.
+Check C07_layout_tokens_are_pieces_partial : forall O w e i, tok_ok O e = true ->
+  toks (Formatter.render (Formatter.fmtd O w e i)) = flat_map piece_toks (Formatter.fmtd O w e i) /\
+  ends_code (Formatter.render (Formatter.fmtd O w e i)) = true.
+Print Assumptions C07_layout_tokens_are_pieces_partial.
+
+(* the hypothesis is satisfiable and the layouts are taken: the tree of C07_example_layout_multiline at
+   width 10, and a list / record / call / conditional / do-block tree at width 1 *)
+Example C07_example_layout_tokens :
+  let O := printer_oracles FX_ALL (policy_new fixed_opinfo) num_text true in
+  let e1 := EBin Where (EBin Via (EId "xs") (ELam [AReq "x"] (EBin Add (EBin Multiply (EId "x") (EId "k")) (EId "one"))))
+                 (EId "ok") in
+  let e2 := EDo [Cm [] (EAssign "t" (ECall (EId "f") [EList [Cm [] (EStr "a // b") None; Cm [] (EId "c") None];
+                                                       ERec [Cm [] (REntry (KStatic "k") (EId "v")) None]])) None]
+                (Cm [] (ECond (EId "t") (EId "a") (ECond (EId "u") (EId "b") (EId "c"))) None) in
+  tok_ok O e1 = true /\ tok_ok O e2 = true /\ wf e1 = true /\ wf e2 = true /\
+  Formatter.contains_nl (Formatter.render (Formatter.fmtd O 10 e1 0)) = true /\
+  Formatter.contains_nl (Formatter.render (Formatter.fmtd O 1 e2 0)) = true /\
+  dok true (Formatter.fmtd O 1 e2 0) = true /\
+  lview (Formatter.render (Formatter.fmtd O 1 e2 0)) = lview (print_text FX_ALL (policy_new fixed_opinfo) num_text e2).
+Proof. vm_compute. repeat split. Qed.
+
+(* C07_layout_preserves_tokens_full as stated above is REFUTED by the model: it quantifies over every
+   number-text oracle and every identifier string, and `wf` does not say that a name is a name.  With the
+   "identifier" `//` (which no parser produces) the one-line text `[//, b]` is `[` + a comment, while the
+   multi-line layout has `b,` and `]` on lines of their own.  Not a defect of the code: a missing
+   hypothesis of the statement (lexical sanity of the leaf texts) — `tok_ok` is that hypothesis. *)
+Lemma C07_layout_preserves_tokens_full_refuted : ~ C07_layout_preserves_tokens_full.
+Proof.
+  intro H.
+  specialize (H num_text true 1 (EList [Cm [] (EId "//") None; Cm [] (EId "b") None]) 0 eq_refl eq_refl eq_refl).
+  vm_compute in H. discriminate H.
+Qed.
+Print Assumptions C07_layout_preserves_tokens_full_refuted.
+
+(* The statement to prove, with the hypothesis it needs and WITHOUT cr_free (no longer needed after the
+   F55 repair: Formatter.v never builds a Relined piece, see dok_binop_doc / C07_relined_identity).
+   Still open between C07_layout_tokens_are_pieces_partial and this:
+   (a) `canon` over the piece chunks: the trailing `,` of the list / record / call layouts before the
+       closer, and `x =>` (format_lambda, format_single_line) against `(x) =>` (expr_to_source) — canon is a
+       4-token look-ahead rewriting and needs its own congruence lemmas over the same walk;
+   (b) the chunks of the one-line text print_text e as the same concatenation (print_text is not built
+       from pieces; the same boundary lemmas apply to its separators `, ` ` op ` `if ` ` then ` ` else `);
+   (c) tok_ok for the printer instance from `wf` + lexical sanity of names, number texts and quoted
+       strings (quote_string).
+   Families: (a)+(b) are open for every family (list / record / call; binary operators; conditional;
+   lambda; do-block); what IS proved for every family is the seam structure (FmtToksDoc.v). *)
+Definition C07_layout_view_full : Prop := forall numtxt keepc w e i,
+  wf e = true -> lam_ok e = true ->
+  let O := printer_oracles FX_ALL (policy_new fixed_opinfo) numtxt keepc in
+  tok_ok O e = true ->
+  lview (Formatter.render (Formatter.fmtd O w e i)) = lview (print_text FX_ALL (policy_new fixed_opinfo) numtxt e).
